@@ -5,8 +5,9 @@ Open Scope Z_scope.
 
 (* ---------------------------------------------------------------------------------------------- *)
 (* fresh queues: no script passes the queue object it was given on into another queue event *)
-Definition fresh_action (a : action) : bool := match a with APostQ _ true => false | _ => true end.
+Definition fresh_action (a : action) : bool := match a with APostQ _ true _ => false | _ => true end.
 Definition fresh_h (h : handler) : bool :=
+  match h_kwq h with Some _ => false | None => true end &&
   match h_body h with HSync acts => forallb fresh_action acts | HAsync _ => true end.
 
 Definition covered (q : nat) (s : state) : Prop :=
@@ -414,7 +415,7 @@ Proof.
 Qed.
 
 (* EventManager._post with fresh kwargs *)
-Lemma post_inv k ev isq s : Inv k s -> Inv k (post ev isq None s).
+Lemma post_inv k ev isq kw s : Inv k s -> Inv k (post ev isq None kw s).
 Proof.
   intros I. unfold post.
   assert (Hpush : forall s0 : state, reg s0 = reg s -> disps s0 = disps s -> heap s0 = heap s -> nev s0 = nev s ->
@@ -422,7 +423,7 @@ Proof.
             evq s0 = evq s ->
             Inv k (upd_evq match evq s0 with [] => push_ready s0 RPeq | _ :: _ => s0 end
                      (evq match evq s0 with [] => push_ready s0 RPeq | _ :: _ => s0 end
-                      ++ [mkP (npsn s) ev isq None]))).
+                      ++ [mkP (npsn s) ev isq None kw]))).
   { intros s0 E1 E2 E3 E4 E5 E6 E7 E8 E9 E10.
     set (m := match evq s0 with [] => push_ready s0 RPeq | _ :: _ => s0 end).
     assert (M : reg m = reg s0 /\ disps m = disps s0 /\ heap m = heap s0 /\ nev m = nev s0 /\ pend m = pend s0 /\
@@ -454,8 +455,8 @@ Proof.
       intros H X. destruct (inv_peq _ _ I) as [_ [_ C]]; auto.
 Qed.
 
-Lemma post_frame ev isq kw s :
-  disps (post ev isq kw s) = disps s /\ heap (post ev isq kw s) = heap s.
+Lemma post_frame ev isq kw kd s :
+  disps (post ev isq kw kd s) = disps s /\ heap (post ev isq kw kd s) = heap s.
 Proof.
   unfold post. destruct isq; cbn;
     repeat match goal with |- context [if ?c then _ else _] => destruct c | |- context [match ?c with [] => _ | _ => _ end] => destruct c end;
@@ -542,7 +543,7 @@ Lemma exec_action_inv k own a s :
   Inv k s -> own_ok own s -> fresh_action a = true ->
   Inv k (exec_action own a s) /\ frame s (exec_action own a s).
 Proof.
-  intros I Ho Hf. destruct a as [| |n|q|ev share|ev|h]; cbn [exec_action].
+  intros I Ho Hf. destruct a as [| |n|q|ev share kw|ev|h]; cbn [exec_action].
   - destruct own as [q|]; [|split; [exact I|apply frame_refl]].
     split; [apply do_wait_inv; auto|]. destruct (do_wait_frame q true s) as [A B].
     repeat split; try congruence. rewrite A. eauto.
@@ -552,8 +553,8 @@ Proof.
   - destruct (held q s); [|split; [exact I|apply frame_refl]].
     split; [|apply frame_clear]. apply do_clear_inv; auto. intros x Hin N. apply In_remove_first; auto.
   - destruct share; [discriminate|]. split; [apply post_inv; auto|].
-    destruct (post_frame ev true None s). apply frame_same; auto.
-  - split; [apply post_inv; auto|]. destruct (post_frame ev false None s). apply frame_same; auto.
+    destruct (post_frame ev true None (kw_norm kw) s). apply frame_same; auto.
+  - split; [apply post_inv; auto|]. destruct (post_frame ev false None [] s). apply frame_same; auto.
   - split; [|apply frame_same; reflexivity].
     destruct I. constructor; sst; eauto.
     intros ev hs' Hin. destruct (reg_remove_In _ _ _ _ Hin) as [hs [A ->]].
@@ -685,19 +686,24 @@ Lemma run_hs_inv i : forall rem d s,
 Proof.
   induction rem as [|h rem IH]; intros d s I Hi Hf Hkw; cbn [run_hs].
   - apply add_log_inv. apply done_inv; auto.
-  - cbn in Hf. apply andb_true_iff in Hf as [F1 F2]. rewrite Hkw.
+  - cbn in Hf. apply andb_true_iff in Hf as [F1 F2].
+    destruct (negb (cond_ok (h_cond h) (merged_kw d h))); [apply IH; auto|].
+    unfold fresh_h in F1. apply andb_true_iff in F1 as [F0 F1].
+    assert (Hq : merged_queue d h = None).
+    { unfold merged_queue. destruct (h_kwq h); [discriminate|exact Hkw]. }
+    rewrite Hq.
     destruct (alloc_inv _ _ I) as [I1 O1].
     set (q := length (heap s)) in *.
     set (s1 := upd_heap s (heap s ++ [mkQ false None])) in *.
-    set (s2 := add_log s1 (LInvoke (d_psn d) (h_id h) q)).
-    assert (I2 : Inv (Some i) s2) by (apply add_log_inv; exact I1).
+    set (s2 := add_log (add_log s1 (LInvoke (d_psn d) (h_id h) q)) (LArgs (merged_kw d h))).
+    assert (I2 : Inv (Some i) s2) by (apply add_log_inv; apply add_log_inv; exact I1).
     assert (O2 : own_ok (Some q) s2) by (eapply own_ok_frame; [exact O1|apply frame_same; reflexivity]).
     set (s3 := match h_body h with
                | HSync acts => exec_actions (Some q) acts s2
                | HAsync aw => async_adapter q aw s2
                end).
     assert (X : Inv (Some i) s3 /\ frame s2 s3).
-    { unfold s3. unfold fresh_h in F1. destruct (h_body h) as [acts|aw].
+    { unfold s3. destruct (h_body h) as [acts|aw].
       - apply exec_actions_inv; auto.
       - split; [apply adapter_inv; auto|]. destruct (adapter_frame q aw s2) as [A B].
         repeat split; try congruence. rewrite A. eauto. }
@@ -817,7 +823,7 @@ Lemma run_plain_inv k psn hs : forall s,
 Proof.
   induction hs as [|h hs IH]; intros s I Hf; cbn [run_plain]; auto.
   cbn in Hf. apply andb_true_iff in Hf as [F1 F2]. apply IH; auto.
-  unfold fresh_h in F1. destruct (h_body h).
+  unfold fresh_h in F1. apply andb_true_iff in F1 as [_ F1]. destruct (h_body h).
   - apply exec_actions_inv; auto using own_ok_none. apply add_log_inv; auto.
   - apply fail_inv. apply add_log_inv; auto.
 Qed.
